@@ -131,6 +131,19 @@ theorem c08_source_muxer :
     IpcHub.Gen.metadataVCodec = ["CodecIDAVC", "CodecIDHEVC"] := by
   decide
 
+/-- The two client ends (HTTP-FLV, WebSocket-FLV) are the writer the theorems are about: the type
+    flags are the muxer's (`Stream.FlvTypeFlags`), the header is written by `flv.NewWriter` on the
+    client connection before the consumer is registered for FLV packets, and every packet handed to
+    `Consume` goes through that writer's `WriteFlvTag`. -/
+theorem c08_source_services :
+    IpcHub.Gen.httpTypeFlags = ["stream.FlvTypeFlags()"] ∧ IpcHub.Gen.httpNewWriter = "flv.NewWriter(w, typeFlags)" ∧
+    IpcHub.Gen.httpStartConsume = "stream.StartConsume(c, media.FLVPacket, ...)" ∧
+    IpcHub.Gen.httpConsumeWrite = "c.w.WriteFlvTag(pack.(*flv.Tag))" ∧
+    IpcHub.Gen.wsTypeFlags = ["stream.FlvTypeFlags()"] ∧ IpcHub.Gen.wsNewWriter = "flv.NewWriter(conn, typeFlags)" ∧
+    IpcHub.Gen.wsStartConsume = "stream.StartConsume(c, media.FLVPacket, ...)" ∧
+    IpcHub.Gen.wsConsumeWrite = "c.w.WriteFlvTag(pack.(*flv.Tag))" := by
+  decide
+
 /-- the model instantiated with the regenerated switches is the repaired behaviour -/
 theorem c08_gen_cfg : genCfg = fixedCfg := by decide
 
